@@ -321,6 +321,15 @@ Proof.
 Qed.
 Lemma fraun_scaled c0 u c : fscal c0 (fmul c (Sinv (F (S u)))) = fraun u (fscal c0 c).
 Proof. unfold fraun. rewrite fmul_scal_l. reflexivity. Qed.
+(* the zero field stays zero through every form of the forward model *)
+Lemma fmul_zero_r x : fmul x fzero = fzero.
+Proof. extensionality i; extensionality j; unfold fmul, fzero; ring. Qed.
+Theorem centered_zero K : centered fzero K = fzero.
+Proof. unfold centered. rewrite S_zero, F_zero, fmul_zero_r, Finv_zero, Sinv_zero. reflexivity. Qed.
+Theorem conv_centered_zero h : conv_centered fzero h = fzero.
+Proof. unfold conv_centered. rewrite S_zero, F_zero, fmul_zero_r, Finv_zero, Sinv_zero. reflexivity. Qed.
+Theorem fraun_zero c : fraun fzero c = fzero.
+Proof. unfold fraun. rewrite S_zero, F_zero, Sinv_zero, fmul_zero_r. reflexivity. Qed.
 
 
 Section Shift2.
